@@ -49,6 +49,13 @@ func langOutputs(src string) string {
 	if err != nil {
 		b.WriteString("COMPILE-ERROR:\n" + err.Error() + "\n")
 	}
+	// the same at the strictest enforcement level (mrp --strict=error),
+	// where more rules produce errors
+	syntax.SetEnforcementLevel(syntax.EnforceError)
+	if _, _, _, serr := syntax.ParseSourceBytes([]byte(src), "t.mro", nil, false); serr != nil {
+		b.WriteString("COMPILE-ERROR (strict):\n" + serr.Error() + "\n")
+	}
+	syntax.SetEnforcementLevel(syntax.EnforceDisable)
 	if f, ferr := syntax.FormatSrcBytes([]byte(src), "t.mro", false, nil); ferr != nil {
 		b.WriteString("FORMAT-ERROR:\n" + ferr.Error() + "\n")
 	} else {
@@ -231,6 +238,33 @@ call P(q = 1,)
 {
     map call S(a = split {"x": 1, "y": 2}, b = split {"x": 1, "z": 2}, c = split {"w": 1, "y": 2}, d = self.q, m = {}, st = null, xs = [],)
     return (r = S.o,)
+}
+call P(q = 1,)
+`,
+		"split-map-keys-disjoint": stages + `pipeline P(in int q, out map<int> r,)
+{
+    map call S(a = split {"x": 1, "y": 2, "z": 3}, b = split {"p": 1, "q": 2, "r": 3}, c = split {"x": 1, "p": 2, "m": 3}, d = self.q, m = {}, st = null, xs = [],)
+    return (r = S.o,)
+}
+call P(q = 1,)
+`,
+		"cyclic-calls": `stage S1(in int x, out int y, src py "s",)
+pipeline P(in int q, out int r,)
+{
+    call S1 as A(x = C.y,)
+    call S1 as B(x = A.y,)
+    call S1 as C(x = B.y,)
+    call S1 as D(x = E.y,)
+    call S1 as E(x = D.y,)
+    return (r = A.y,)
+}
+call P(q = 1,)
+`,
+		"split-repeats-ins": `stage SP(in int a, in int b, in int c, in int d, out int o, src py "s",) split (in int d, in int b, in int a, in int c, out int o,)
+pipeline P(in int q, out int r,)
+{
+    call SP(a = 1, b = 2, c = 3, d = self.q,)
+    return (r = SP.o,)
 }
 call P(q = 1,)
 `,
